@@ -111,7 +111,9 @@ func (c *Ctx) accountLayouts() {
 				pol = !pol
 			}
 			if p, ok := cond.(*ssa.Parameter); ok {
-				flags[fmt.Sprintf("0x%02x", k)] = fmt.Sprintf("%s=%v", p.Name(), pol)
+				// the two flags by position in ToHuman(bounce, testnet), not by the parameters' names
+				role := map[string]string{"#1": "bounce", "#2": "testnet"}[paramPos(p)]
+				flags[fmt.Sprintf("0x%02x", k)] = fmt.Sprintf("%s=%v", role, pol)
 			}
 			if kk, ok := constInt(bo.X); ok {
 				base = kk
@@ -120,6 +122,21 @@ func (c *Ctx) accountLayouts() {
 					if kk, ok := constInt(e); ok {
 						base = kk
 					}
+				}
+			} else if ld, ok := bo.X.(*ssa.UnOp); ok && ld.Op == token.MUL {
+				// the tag built in place: buf[0] = 0x11; buf[0] |= flag
+				if ia, ok := ld.X.(*ssa.IndexAddr); ok {
+					allInstrs(f, func(_ *ssa.BasicBlock, in2 ssa.Instruction) {
+						if st, ok := in2.(*ssa.Store); ok {
+							if ia2, ok := st.Addr.(*ssa.IndexAddr); ok && ia2.X == ia.X {
+								i1, ok1 := constInt(ia.Index)
+								i2, ok2 := constInt(ia2.Index)
+								if kk, isK := constInt(st.Val); isK && ok1 && ok2 && i1 == i2 {
+									base = kk
+								}
+							}
+						}
+					})
 				}
 			}
 		})
@@ -246,6 +263,45 @@ func (c *Ctx) accountLayouts() {
 		}
 		ws = be
 		okCrc := len(ws) == 1 && ws[0].how == "BE16" && strings.Contains(ws[0].what, "Crc16")
+		// the same body assembled in one buffer of 35 bytes: buf[0] = tag, copy(buf[1:33], addr), BE16 crc at [33:]
+		// over buf[:33], and the whole buffer encoded
+		formB := false
+		{
+			var crcF, addrF *byteField
+			other := 0
+			for i := range ws {
+				w := &ws[i]
+				switch {
+				case w.how == "BE16" && w.lo == "33" && (w.hi == "" || w.hi == "35") && strings.Contains(w.what, "Crc16"):
+					crcF = w
+				case w.how == "copy" && w.lo == "1" && w.hi == "33" && strings.Contains(w.what, "addr"):
+					addrF = w
+				default:
+					other++
+				}
+			}
+			if crcF != nil && addrF != nil && other == 0 {
+				buf := fieldBase[fnName(f)+"|"+crcF.String()]
+				same := buf != nil && fieldBase[fnName(f)+"|"+addrF.String()] == buf
+				if k, ok := makeSliceLen(buf); !ok || k != 35 {
+					same = false
+				}
+				for _, cl := range callsTo(f, modPath+"/utils.Crc16") {
+					b, lo, hi := sliceBounds(cl.Call.Args[0])
+					if bufferOf(b) != buf || !(lo == "" || lo == "0") || hi != "33" {
+						same = false
+					}
+				}
+				for _, cl := range callsTo(f, "encoding/base32.Encoding.EncodeToString") {
+					b, lo, hi := sliceBounds(cl.Call.Args[1])
+					if bufferOf(b) != buf || !(lo == "" || lo == "0") || !(hi == "" || hi == "35") {
+						same = false
+					}
+				}
+				formB = same
+			}
+		}
+		okCrc = okCrc || formB
 		c.check(okCrc, R, "ADNL base32: crc16 stored big-endian", f.Pos(), fieldsString(ws), "ADNLAddressToBase32 stores the checksum as "+fieldsString(ws)+", the parser reads it BE16")
 		var tag int64 = -1
 		var chain []string
@@ -261,9 +317,9 @@ func (c *Ctx) accountLayouts() {
 				}
 			}
 		})
-		c.check(tag == 0x2d && len(chain) >= 2, R, "ADNL base32 body = 0x2d | addr | crc", f.Pos(), fmt.Sprintf("tag 0x%x chain %v", tag, chain), fmt.Sprintf("ADNLAddressToBase32 builds tag 0x%x with pieces %v; the body is 0x2d | 32-byte address | crc16", tag, chain))
+		c.check(tag == 0x2d && (len(chain) >= 2 || formB), R, "ADNL base32 body = 0x2d | addr | crc", f.Pos(), fmt.Sprintf("tag 0x%x chain %v", tag, chain), fmt.Sprintf("ADNLAddressToBase32 builds tag 0x%x with pieces %v; the body is 0x2d | 32-byte address | crc16", tag, chain))
 		for _, cl := range callsTo(f, modPath+"/utils.Crc16") {
-			c.check(len(appendChain(cl.Call.Args[0])) == 2, R, "ADNL crc covers 0x2d|addr", cl.Pos(), "Crc16(tag|addr)", "ADNLAddressToBase32 computes the checksum over something other than tag|address")
+			c.check(len(appendChain(cl.Call.Args[0])) == 2 || formB, R, "ADNL crc covers 0x2d|addr", cl.Pos(), "Crc16(tag|addr)", "ADNLAddressToBase32 computes the checksum over something other than tag|address")
 		}
 	}
 	if f := c.mustFn(R, "liteclient", "ParseADNLAddress"); f != nil {
@@ -307,7 +363,8 @@ func (c *Ctx) userFriendlyReader(f *ssa.Function, label string) {
 		return
 	}
 	rs := c.byteReads(f)
-	c.check(len(rs) == 1 && rs[0].how == "BE16" && rs[0].lo == "34" && rs[0].hi == "36", R, label+" reads crc BE16 at [34:36]", f.Pos(), fieldsString(rs), fnName(f)+" reads the stored checksum as "+fieldsString(rs)+", the writer stores it big-endian at [34:36]")
+	// (Uint16 reads two bytes from the start of its argument: b[34:36] and b[34:] are the same read)
+	c.check(len(rs) == 1 && rs[0].how == "BE16" && rs[0].lo == "34" && (rs[0].hi == "36" || rs[0].hi == ""), R, label+" reads crc BE16 at [34:36]", f.Pos(), fieldsString(rs), fnName(f)+" reads the stored checksum as "+fieldsString(rs)+", the writer stores it big-endian at [34:36]")
 	for _, q := range []string{"github.com/snksoft/crc.CalculateCRC", modPath + "/utils.Crc16"} {
 		for _, cl := range callsTo(f, q) {
 			_, lo, hi := sliceBounds(cl.Call.Args[len(cl.Call.Args)-1])
@@ -448,13 +505,29 @@ func (c *Ctx) crc16Table() {
 		ops = kept
 		sort.Strings(ops)
 		got := strings.Join(ops, " ")
+		// the table index reduced to 8 bits by the mask, or by computing it in a byte: TABLE[byte(crc>>8)^b]
+		byteIdx := false
+		scan(func(_ *ssa.BasicBlock, in ssa.Instruction) {
+			if ia, ok := in.(*ssa.IndexAddr); ok {
+				root := ia.X
+				if ld, ok := root.(*ssa.UnOp); ok && ld.Op == token.MUL {
+					root = ld.X // a slice-typed table is loaded first
+				}
+				if _, isG := root.(*ssa.Global); isG && intBits(stripIntConv(ia.Index).Type()) == 8 {
+					byteIdx = true
+				}
+			}
+		})
+		if byteIdx && got == "shl8 shr8 xor xor" {
+			got = "andff shl8 shr8 xor xor"
+		}
 		c.check(initOK && got == "andff shl8 shr8 xor xor", R, name+" is the MSB-first table loop with init 0", f.Pos(), got, name+" is no longer crc = TABLE[((crc>>8)^b)&0xff] ^ (crc<<8) starting from 0: operators "+got+fmt.Sprintf(" init0=%v", initOK))
 		// the table index derives from (crc>>8)^byte and the other xor operand is crc<<8
 		okIdx := false
 		scan(func(_ *ssa.BasicBlock, in ssa.Instruction) {
 			if ia, ok := in.(*ssa.IndexAddr); ok {
 				s := shape(ia.Index, 5)
-				okIdx = okIdx || (strings.Contains(s, ">>8") && strings.Contains(s, "^") && strings.Contains(s, "&255"))
+				okIdx = okIdx || (strings.Contains(s, ">>8") && strings.Contains(s, "^") && (strings.Contains(s, "&255") || intBits(stripIntConv(ia.Index).Type()) == 8))
 			}
 		})
 		c.check(okIdx, R, name+" indexes the table with ((crc>>8)^b)&0xff", f.Pos(), "index shape", name+" no longer indexes the table with ((crc>>8)^byte)&0xff")
@@ -551,4 +624,35 @@ func (c *Ctx) bits256Lengths() {
 	if n < 3 {
 		c.bad(R, "Bits256 fillers with a length test found", token.NoPos, fmt.Sprintf("only %d methods of ton.Bits256 compare a decoded length with a constant; FromHex/FromBase64/FromBase64URL/FromBytes were confirmed", n))
 	}
+}
+
+// stripIntConv: v without widening integer conversions (the value as it was computed).
+func stripIntConv(v ssa.Value) ssa.Value {
+	for {
+		cv, ok := v.(*ssa.Convert)
+		if !ok || !isInteger(cv.Type()) || !isInteger(cv.X.Type()) || intBits(cv.Type()) < intBits(cv.X.Type()) {
+			return v
+		}
+		v = cv.X
+	}
+}
+
+// makeSliceLen: the constant length of the make([]byte, n) behind a buffer value.
+func makeSliceLen(v ssa.Value) (int64, bool) {
+	switch x := v.(type) {
+	case *ssa.MakeSlice:
+		return constInt(x.Len)
+	case *ssa.Slice:
+		// make with a constant size is an array allocation sliced whole
+		if al, ok := x.X.(*ssa.Alloc); ok {
+			if at, ok := al.Type().Underlying().(*types.Pointer).Elem().Underlying().(*types.Array); ok {
+				return at.Len(), true
+			}
+		}
+	case *ssa.Alloc:
+		if at, ok := x.Type().Underlying().(*types.Pointer).Elem().Underlying().(*types.Array); ok {
+			return at.Len(), true
+		}
+	}
+	return 0, false
 }
